@@ -240,21 +240,33 @@ func (s *jstate) evalExpr(e js.IExpr) (jv, bool) {
 		s.trace = append(s.trace, jev{name, args})
 		return s.fresh(), false
 	case *js.DotExpr:
-		o, th := s.evalExpr(x.X)
-		if th {
-			return o, true
-		}
-		if jNullish(o) {
-			if x.Optional {
-				return jv{jU, 0}, false
-			}
-			return jv{jO, 9}, true // TypeError
-		}
-		s.trace = append(s.trace, jev{"get." + string(x.Y.Data), []jv{o}})
-		return s.fresh(), false
+		v, th, _ := s.evalChain(x)
+		return v, th
 	}
 	s.unsupp = true
 	return jv{}, false
+}
+
+// evalChain evaluates a member access as part of an optional chain: once an optional link finds a nullish base the
+// whole chain (not crossing parentheses) yields undefined.
+func (s *jstate) evalChain(e js.IExpr) (v jv, thrown, short bool) {
+	x, ok := e.(*js.DotExpr)
+	if !ok {
+		v, thrown = s.evalExpr(e)
+		return v, thrown, false
+	}
+	o, th, sh := s.evalChain(x.X)
+	if th || sh {
+		return o, th, sh
+	}
+	if jNullish(o) {
+		if x.Optional {
+			return jv{jU, 0}, false, true
+		}
+		return jv{jO, 9}, true, false // TypeError
+	}
+	s.trace = append(s.trace, jev{"get." + string(x.Y.Data), []jv{o}})
+	return s.fresh(), false, false
 }
 
 // evalStmt returns the completion kind and value.
@@ -641,4 +653,53 @@ func VerifJSNested(n int) {
 		body = append(body, ')')
 	}
 	verifJSProgram(append(body, ';'), 0)
+}
+
+var jNullishPatterns = []string{
+	"x=(a==null?undefined:a.p);", "x=(a!=null?a.p:undefined);", "x=(a===null||a===undefined?undefined:a.p);", "x=(a==null?b:a);", "x=(a!=null?a:b);",
+	"x=(a===undefined||a===null?b:a);", "x=(a==null?void 0:a.p);", "x=(a==null?undefined:f(a));", "if(a==null)x=b;else x=a;", "x=(a??b);", "x=(a?a:b);", "x=(a?b:a);",
+	"x=Math.pow(a,b);", "x=(a==null?undefined:a.p.q);",
+}
+
+// VerifJSNullish (C16 version gates + C01): nullish / optional-chaining rewrite patterns for the targets ES5, ES2015,
+// ES2019, ES2020 and unspecified: same behaviour, and no syntax newer than the target appears unless the input had it.
+func VerifJSNullish(n int) {
+	pat := jNullishPatterns[vChoice("pat", len(jNullishPatterns))]
+	version := []int{5, 2015, 2016, 2019, 2020, 0}[vChoice("version", 6)]
+	src := []byte("function m(a,b,c){" + pat + "}")
+	orig := append([]byte(nil), src...)
+	w := &vWriter{}
+	err := (&Minifier{Version: version}).Minify(nil, w, &vReader{b: src}, nil)
+	vReach("after-call")
+	vOutput("out", w.buf)
+	vAssert(err == nil, "accepted")
+	out := append([]byte(nil), w.buf...)
+	has := func(b []byte, s string) bool {
+		for i := 0; i+len(s) <= len(b); i++ {
+			if string(b[i:i+len(s)]) == s {
+				return true
+			}
+		}
+		return false
+	}
+	if version != 0 && version < 2020 {
+		vAssert(has(orig, "??") || !has(out, "??"), "no ?? for targets older than ES2020")
+		vAssert(!has(out, "?."), "no ?. for targets older than ES2020")
+	}
+	if version != 0 && version < 2016 {
+		vAssert(!has(out, "**"), "no ** for targets older than ES2016")
+	}
+	params := jSymParams()
+	s0, k0, v0, ok0 := jRun(orig, params)
+	s1, k1, v1, ok1 := jRun(out, params)
+	vAssert(ok1, "output parses to one function declaration")
+	if ok0 && !s0.unsupp && !s1.unsupp {
+		vAssert(len(s0.trace) == len(s1.trace), "same number of host interactions")
+		for i := range s0.trace {
+			vAssert(s0.trace[i].name == s1.trace[i].name, "same host interaction")
+		}
+		vAssert(k0 == k1 && jvEq(v0, v1), "same completion")
+		vAssert(jvEq(s0.vars["x"], s1.vars["x"]), "same final value of x")
+	}
+	vReach("end")
 }
